@@ -48,6 +48,7 @@ def check(rep: Report, ctx: Ctx) -> None:
     r54(rep, ctx)
     r55(rep, ctx)
     r56(rep, ctx)
+    r57(rep, ctx)
 
 
 # --------------------------------------------------------------------------
@@ -589,3 +590,41 @@ def r56(rep: Report, ctx: Ctx) -> None:
     lines = [t for _, t in _emitted_lines(k)]
     rep.ob("R5.6", "kill node emits exactly one detach", lines == ["detach"],
            fi=k, node=k.node, detail=f"lines {lines}")
+
+
+def r57(rep: Report, ctx: Ctx) -> None:
+    rep.rule("R5.7", "a PUML event node copied from another carries every "
+             "field the constructor accepts (the loop body, the parent "
+             "reference, the event types)", 3)
+    cen = ctx.func("PUMLGraph.create_event_node")
+    init = ctx.func("PUMLEventNode.__init__")
+    declared = {n.attr for n in ast.walk(init.node)
+                if isinstance(n, ast.Attribute) and isinstance(n.ctx, ast.Store)
+                and isinstance(n.value, ast.Name) and n.value.id == "self"}
+    params = [p for p in cen.params() if p not in ("self", "event_name")]
+    copy_params = [p for p in params if p in declared]
+    sites = 0
+    for fi in ctx.index.all_functions():
+        for call in calls_in(ctx, fi, cen):
+            name_arg = actual(call, cen, "event_name")
+            if not (isinstance(name_arg, ast.Attribute)
+                    and name_arg.attr == "node_type"
+                    and isinstance(name_arg.value, ast.Name)):
+                continue      # built from a walker node, not a copy
+            src = name_arg.value.id
+            sites += 1
+            for p in copy_params:
+                a = actual(call, cen, p)
+                ok = isinstance(a, ast.Attribute) and a.attr == p and \
+                    isinstance(a.value, ast.Name) and a.value.id == src
+                rep.ob("R5.7", f"{fi.short}: copy of '{src}' passes {p}", ok,
+                       fi=fi, node=call,
+                       detail=f"{p}={unparse(a) if a is not None else '<default>'}"
+                              + ("" if ok else f" -- the copy loses "
+                                 f"{src}.{p}" + (": a copied loop node is "
+                                                 "then written by its "
+                                                 "internal name (LOOP_n) and "
+                                                 "its body disappears"
+                                                 if p == "sub_graph" else "")))
+    if not sites:
+        raise AnalysisError("no copy site of a PUML event node found")
